@@ -61,7 +61,7 @@ CHUNK = 24
 REPL = "0FG:#>=, \n"
 TAG_VALUES = [b"", b"\x00", b"\x01", b"\x02", b"\x03", b"\xff", b"\x00\x02", b"\x02\x00", b"\x02\x02\x02", bytes(200)]
 BYTE_CLASSES = ["bit0", "bit1", "bit2", "bit3", "bit4", "bit5", "bit6", "bit7", "zero", "ff", "inc"]
-DECSETS = ["all", "none", "public", "private", "wrong"]
+DECSETS = ["all", "none", "public", "private", "wrong", "null", "iterator"]
 _ART = None
 
 
@@ -99,6 +99,10 @@ def decryptors(fx, name, ctx):
         return fx.decryptors()
     if name == "none":
         return []
+    if name == "null":
+        return None          # "no decryptors" spelled as None (tolerated by the block classes' own search)
+    if name == "iterator":
+        return iter(fx.decryptors())
     if name == "public":
         return [EccEncryptor(fx.sel, FX.priv_key(fx.scalar).public_key), EccEncryptor(0)]
     if name == "private":
@@ -157,7 +161,7 @@ def cases(ctx):
             text = a if kind == "bf2" else a.text
             dss = DECSETS if kind == "bec2" else [""]
             for ds in dss:
-                heavy = kind == "bec2" and ds in ("none", "public", "private", "wrong")
+                heavy = kind == "bec2" and ds in ("none", "public", "private", "wrong", "null", "iterator")
                 yield ("text", kind, fi, ds, "intact", 0, "")
                 for m in text_mutations(text):
                     if heavy and m[0] == "rep" and m[2] not in "0G\n":
